@@ -22,7 +22,7 @@ VARIABLES m, ok
 mvars == <<S, hist, nlog, done, I, m, ok>>
 
 (* m = [ord, lines, orphans, zl, d]: ord = <<[b, z]>>, lines[b] = member draw state (sequence of bar lines, <<>> before the first draw) *)
-MM0 == [ord |-> <<>>, lines |-> <<>>, orphans |-> <<>>, zl |-> 0, d |-> [t |-> TInit(W, H), llc |-> 0, atEnd |-> FALSE]]
+MM0 == [ord |-> <<>>, lines |-> <<>>, orphans |-> <<>>, zl |-> 0, d |-> [t |-> TInit(W, H), llc |-> 0, atEnd |-> FALSE], lim |-> NoLim]
 
 RowsL(ls) == SumCodeRows(ToBar(ls), 1, W)
 MemberLines(mm, b) == IF b \in DOMAIN mm.lines THEN mm.lines[b] ELSE <<>>
@@ -33,8 +33,9 @@ HeadRows(mm, o) == IF o # <<>> /\ o[1].z THEN RowsL(MemberLines(mm, o[1].b)) + H
 RECURSIVE DropHeads(_)
 DropHeads(o) == IF o # <<>> /\ o[1].z THEN DropHeads(Tail(o)) ELSE o
 
-(* MultiState::draw(force, extra_lines) without a limiter *)
-MDraw(mm, extra) ==
+(* MultiState::draw(force, extra_lines, now): text (extra lines, orphan lines) forces the draw; an ordinary request is *)
+(* performed only if the limiter of the target allows it, and a refused one changes nothing (no zombie is reaped)    *)
+MDraw(mm, extra, force, now) ==
     LET adj == HeadRows(mm, mm.ord)
         zlPinned == mm.zl + adj                                  \* pinned: counted before the draw
         hasText == extra # <<>> \/ (ZombieAccounting = "repaired" /\ mm.orphans # <<>>)
@@ -46,7 +47,9 @@ MDraw(mm, extra) ==
         keepNow == IF ZombieAccounting = "pinned" THEN extra = <<>> ELSE ~hasText
         d2 == IF keepNow THEN [d1 EXCEPT !.llc = IF @ >= adj THEN @ - adj ELSE 0] ELSE d1
         zl2 == IF ZombieAccounting = "repaired" /\ keepNow THEN zl1 + adj ELSE zl1
-    IN [mm EXCEPT !.ord = DropHeads(mm.ord), !.orphans = <<>>, !.zl = zl2, !.d = d2]
+        a == IF mm.lim.on /\ ~force /\ extra = <<>> /\ mm.orphans = <<>> THEN Allow(mm.lim, now) ELSE [ok |-> TRUE, l |-> mm.lim]
+    IN IF ~a.ok THEN mm
+       ELSE [mm EXCEPT !.ord = DropHeads(mm.ord), !.orphans = <<>>, !.zl = zl2, !.d = d2, !.lim = a.l]
 
 MClear(mm) ==
     LET d0 == [mm.d EXCEPT !.llc = @ + mm.zl] IN [mm EXCEPT !.zl = 0, !.d = DrawToTerm(d0, <<>>, FALSE)]
@@ -62,6 +65,16 @@ SetLines(mm, b, ls) == [mm EXCEPT !.lines = (b :> ls) @@ mm.lines]
 RECURSIVE UserLines(_, _, _)
 UserLines(t, ls, j) == IF j > Len(ls) THEN t ELSE UserLines(Line(t, ls[j]), ls, j + 1)
 
+MForced == {"finish", "finish_with_message", "finish_and_clear", "abandon", "abandon_with_message", "finish_using_style", "force_draw", "set_tab_width"}
+RECURSIVE MBurst(_, _, _, _)
+MBurst(mm, k, force, now) == IF k = 0 THEN mm ELSE MBurst(MDraw(mm, <<>>, force, now), k - 1, force, now)
+
+(* the items of an iterator: item k shows the position advanced by k *)
+RECURSIVE MIter(_, _, _, _, _, _, _)
+MIter(mm, b, B0, k, n, force, now) ==
+    IF k > n THEN mm
+    ELSE MIter(MDraw(SetLines(mm, b, Render([B0 EXCEPT !.pos = B0.pos + k])), <<>>, force, now), b, B0, k + 1, n, force, now)
+
 MStep(mm, o, S0, S1) ==
     LET b == o.b
         member == b # 0 /\ \E j \in 1..Len(mm.ord) : mm.ord[j].b = b
@@ -72,22 +85,28 @@ MStep(mm, o, S0, S1) ==
          [] o.op = "insert_from_back" -> [mm EXCEPT !.ord = InsertAt(mm.ord, SatSub(Len(mm.ord), o.idx), nb)]
          [] o.op = "insert_before" -> [mm EXCEPT !.ord = InsertAt(mm.ord, IPos(mm.ord, o.b2) - 1, nb)]
          [] o.op = "insert_after" -> [mm EXCEPT !.ord = InsertAt(mm.ord, IPos(mm.ord, o.b2), nb)]
-         [] o.op = "mp_remove" -> IF member THEN MDraw([mm EXCEPT !.ord = SelectSeq(mm.ord, LAMBDA e : e.b # b), !.lines = [x \in DOMAIN mm.lines \ {b} |-> mm.lines[x]]], <<>>) ELSE mm
-         [] o.op = "set_target" -> IF member THEN MDraw([mm EXCEPT !.ord = Ghost(mm.ord, b), !.lines = [x \in DOMAIN mm.lines \ {b} |-> mm.lines[x]]], <<>>) ELSE mm
+         [] o.op = "mp_remove" -> IF member THEN MDraw([mm EXCEPT !.ord = SelectSeq(mm.ord, LAMBDA e : e.b # b), !.lines = [x \in DOMAIN mm.lines \ {b} |-> mm.lines[x]]], <<>>, TRUE, o.t) ELSE mm
+         [] o.op = "set_target" -> IF member THEN MDraw([mm EXCEPT !.ord = Ghost(mm.ord, b), !.lines = [x \in DOMAIN mm.lines \ {b} |-> mm.lines[x]]], <<>>, TRUE, o.t) ELSE mm
          [] o.op = "readd" ->
-               IF member THEN [MDraw([mm EXCEPT !.ord = Ghost(mm.ord, b), !.lines = [x \in DOMAIN mm.lines \ {b} |-> mm.lines[x]]], <<>>) EXCEPT !.ord = Append(@, nb)]
+               IF member THEN [MDraw([mm EXCEPT !.ord = Ghost(mm.ord, b), !.lines = [x \in DOMAIN mm.lines \ {b} |-> mm.lines[x]]], <<>>, TRUE, o.t) EXCEPT !.ord = Append(@, nb)]
                ELSE [mm EXCEPT !.ord = Append(mm.ord, nb)]
          [] o.op = "mp_clear" -> MClear(mm)
-         [] o.op = "mp_println" -> MDraw(mm, TextLines(o.m))
-         [] o.op = "println" -> IF member THEN MDraw([fresh EXCEPT !.orphans = @ \o TextLines(o.m)], <<>>) ELSE mm
+         [] o.op = "mp_println" -> MDraw(mm, TextLines(o.m), TRUE, o.t)
+         [] o.op = "println" -> IF member THEN MDraw([fresh EXCEPT !.orphans = @ \o TextLines(o.m)], <<>>, TRUE, o.t) ELSE mm
          [] o.op \in {"mp_suspend", "suspend"} ->
                IF o.op = "suspend" /\ ~member THEN mm
-               ELSE LET c == MClear(mm) IN MDraw([c EXCEPT !.d.t = UserLines(c.d.t, Split(o.m), 1)], <<>>)
+               ELSE LET c == MClear(mm) IN MDraw([c EXCEPT !.d.t = UserLines(c.d.t, Split(o.m), 1)], <<>>, TRUE, o.t)
          [] o.op = "drop" ->
                IF ~member THEN mm
-               ELSE MZombie(IF S0.bars[b].fin = "no" THEN MDraw(fresh, <<>>) ELSE mm, b)
+               ELSE MZombie(IF S0.bars[b].fin = "no" THEN MDraw(fresh, <<>>, TRUE, o.t) ELSE mm, b)
          [] o.op \in {"set_style", "restyle", "clone", "drop_one", "mp_set_alignment", "mp_set_move_cursor", "reset_eta", "reset_elapsed", "is_hidden", "downgrade", "upgrade"} -> mm
-         [] OTHER -> IF member THEN MDraw(fresh, <<>>) ELSE mm
+         [] o.op = "burst" -> IF member THEN MBurst(fresh, o.n, S1.bars[b].fin # "no", o.t) ELSE mm
+         (* ProgressBarIter over n items: n ordinary requests (inc), then the finish (forced) unless the bar was finished before *)
+         [] o.op = "iter" -> IF ~member THEN mm
+                             ELSE LET m1 == MIter(mm, b, S0.bars[b], 1, o.n, S0.bars[b].fin # "no", o.t)
+                                  IN IF S0.bars[b].fin = "no" THEN MDraw(SetLines(m1, b, Render(S1.bars[b])), <<>>, TRUE, o.t) ELSE m1
+         (* finish*, abandon*, force_draw, set_tab_width force the draw, and so does every draw of a finished bar *)
+         [] OTHER -> IF member THEN MDraw(fresh, <<>>, o.op \in MForced \/ S1.bars[b].fin # "no", o.t) ELSE mm
 
 Painted(o, S0) == (o.op \in {"set_target", "readd", "mp_remove"} => S0.bars[o.b].inmp)
                   /\ o.op \notin {"add", "insert", "insert_from_back", "insert_before", "insert_after", "set_style", "restyle", "clone", "drop_one",
